@@ -135,6 +135,142 @@ func (p *tyParser) ty() types.Type {
 	panic(fmt.Sprintf("harness: bad type descriptor %q at %d", p.s, p.pos))
 }
 
+// observe does what a client does with a type it holds: print it and compare it (with itself and with another type)
+func observe(t types.Type) {
+	_ = t.String()
+	_ = t.LLString()
+	_ = t.Equal(t)
+	_ = t.Equal(types.I8Ptr)
+	_ = types.I8Ptr.Equal(t)
+}
+
+// stagedTy builds the type of the descriptor the way a front end does, in STAGES: every composite type is created incomplete (a struct without fields and
+// without name, a function type before its variadic flag is set, a pointer / vector before address space / scalability are set), OBSERVED (printed and
+// compared) and only then completed through its exported fields and SetName; the result must be the type a one-step construction gives
+func (p *tyParser) stagedTy() types.Type {
+	c := p.peek()
+	switch c {
+	case 'n':
+		p.pos++
+		st := p.pos
+		for p.pos < len(p.s) && strings.IndexByte("0123456789abcdef-", p.s[p.pos]) >= 0 {
+			p.pos++
+		}
+		name := string(unhexArg(p.s[st:p.pos]))
+		if t, ok := p.named[name]; ok {
+			return t
+		}
+		t := &types.StructType{}
+		pt := types.NewPointer(t)
+		observe(pt)
+		observe(t)
+		t.SetName(name)
+		observe(pt)
+		t.Fields = []types.Type{types.I32, pt}
+		p.named[name] = t
+		return t
+	case 'N':
+		p.pos++
+		st := p.pos
+		for p.pos < len(p.s) && strings.IndexByte("0123456789abcdef-", p.s[p.pos]) >= 0 {
+			p.pos++
+		}
+		name := string(unhexArg(p.s[st:p.pos]))
+		p.expect('(')
+		t := p.stagedTy()
+		p.expect(')')
+		outer := types.NewPointer(t)
+		observe(outer)
+		typeAliases[name] = t.LLString()
+		t.SetName(name)
+		observe(outer)
+		return t
+	case 'p':
+		p.pos++
+		as := p.digits()
+		p.expect('(')
+		e := p.stagedTy()
+		p.expect(')')
+		pt := types.NewPointer(e)
+		observe(pt)
+		pt.AddrSpace = types.AddrSpace(as)
+		return pt
+	case 'V', 'S':
+		p.pos++
+		n := p.digits()
+		p.expect('(')
+		e := p.stagedTy()
+		p.expect(')')
+		v := types.NewVector(n, e)
+		observe(v)
+		v.Scalable = c == 'S'
+		return v
+	case 'a':
+		p.pos++
+		n := p.digits()
+		p.expect('(')
+		e := p.stagedTy()
+		p.expect(')')
+		at := types.NewArray(1, e)
+		observe(at)
+		at.Len = n
+		return at
+	case 's', 'P':
+		p.pos++
+		p.expect('(')
+		st := types.NewStruct()
+		ptr := types.NewPointer(st)
+		observe(st)
+		observe(ptr)
+		var ts []types.Type
+		if p.peek() == ')' {
+			p.pos++
+		} else {
+			for {
+				ts = append(ts, p.stagedTy())
+				if p.peek() == ',' {
+					p.pos++
+					continue
+				}
+				p.expect(')')
+				break
+			}
+		}
+		st.Fields = ts
+		observe(ptr)
+		st.Packed = c == 'P'
+		return st
+	case 'F', 'G':
+		p.pos++
+		p.expect('(')
+		ret := p.stagedTy()
+		p.expect(';')
+		var ts []types.Type
+		if p.peek() == ')' {
+			p.pos++
+		} else {
+			for {
+				ts = append(ts, p.stagedTy())
+				if p.peek() == ',' {
+					p.pos++
+					continue
+				}
+				p.expect(')')
+				break
+			}
+		}
+		ft := types.NewFunc(ret)
+		fp := types.NewPointer(ft)
+		observe(ft)
+		observe(fp)
+		ft.Params = ts
+		observe(fp)
+		ft.Variadic = c == 'G'
+		return ft
+	}
+	return p.ty()
+}
+
 func (p *tyParser) tys() []types.Type {
 	var ts []types.Type
 	if p.peek() == ')' {
@@ -174,6 +310,13 @@ func init() {
 		t := parseTyIn(nm, a[0])
 		u := parseTy(a[1])
 		return strconv.FormatBool(t.Equal(u))
+	})
+	// the left type built in stages with observations in between (stagedTy), the right one in one step: both directions of Equal, and the text of the left
+	reg("ty.staged", func(a []string) string {
+		p := &tyParser{s: a[0], named: map[string]*types.StructType{}}
+		t := p.stagedTy()
+		u := parseTy(a[1])
+		return strconv.FormatBool(t.Equal(u)) + " " + strconv.FormatBool(u.Equal(t)) + " " + hexOut([]byte(t.String()))
 	})
 	reg("ty.laws", func(a []string) string {
 		x, y, z := parseTy(a[0]), parseTy(a[1]), parseTy(a[2])
